@@ -8,6 +8,7 @@ mod refsim;
 mod simutil;
 mod asmutil;
 mod objutil;
+mod progs;
 mod props;
 
 use json::Json;
